@@ -548,7 +548,7 @@ def pin(text, expected, what):
 PIN_ESC_NUMERIC = r"""if ('0' <= *p && *p <= '7') { int c = *p++ - '0'; if ('0' <= *p && *p <= '7') { c = (c << 3) + (*p++ - '0');
  if ('0' <= *p && *p <= '7') c = (c << 3) + (*p++ - '0'); } *new_pos = p; return c; }
  if (*p == 'x') { p++; if (!isxdigit(*p)) error_at(p, "invalid hex escape sequence"); int c = 0;
- for (; isxdigit(*p); p++) c = (c << 4) + from_hex(*p); *new_pos = p; return c; }"""
+ for (; isxdigit(*p); p++) c = ((unsigned)c << 4) + from_hex(*p); *new_pos = p; return c; }"""
 
 PINS_TOKENIZE = {
     'from_hex': (r'^static\s+int\s+from_hex\s*\(char c\)\s*\{',
@@ -566,6 +566,7 @@ PINS_TOKENIZE = {
                  Token *tok = new_token(TK_STR, start, end + 1); tok->ty = array_of(ty, len + 1); tok->str = (char *)buf; return tok;"""),
     'read_char_literal': (r'^static\s+Token\s*\*\s*read_char_literal\s*\(char \*start, char \*quote, Type \*ty\)\s*\{',
                  r"""char *p = quote + 1; if (*p == '\0') error_at(start, "unclosed char literal"); int c;
+                 if (*p == '\\' && p[1] == '\0') error_at(start, "unclosed char literal");
                  if (*p == '\\') c = read_escaped_char(&p, p + 1); else c = decode_utf8(&p, p);
                  char *end = strchr(p, '\''); if (!end) error_at(p, "unclosed char literal");
                  Token *tok = new_token(TK_NUM, start, end + 1); tok->val = c; tok->ty = ty; return tok;"""),
@@ -583,9 +584,9 @@ PINS_TOKENIZE = {
                  r"""uint32_t c = 0; for (int i = 0; i < len; i++) { if (!isxdigit(p[i])) return 0; c = (c << 4) | from_hex(p[i]); } return c;"""),
     'convert_universal_chars': (r'^static\s+void\s+convert_universal_chars\s*\(char \*p\)\s*\{',
                  r"""char *q = p; while (*p) { if (startswith(p, "\\u")) { uint32_t c = read_universal_char(p + 2, 4);
-                 if (c) { p += 6; q += encode_utf8(q, c); } else { *q++ = *p++; } }
+                 if (c && c != '\n') { p += 6; q += encode_utf8(q, c); } else { *q++ = *p++; } }
                  else if (startswith(p, "\\U")) { uint32_t c = read_universal_char(p + 2, 8);
-                 if (c) { p += 10; q += encode_utf8(q, c); } else { *q++ = *p++; } }
+                 if (c && c != '\n') { p += 10; q += encode_utf8(q, c); } else { *q++ = *p++; } }
                  else if (p[0] == '\\') { *q++ = *p++; *q++ = *p++; } else { *q++ = *p++; } } *q = '\0';"""),
 }
 
